@@ -61,7 +61,7 @@ def gen_template(rng, two_stage=False, size=None, stages=None):
         elif not is_rep and preds and rng.random() < 0.12:
             c["wa"]["aggregate"] = True          # aggregating without a replicated input
         elif not have_rep and not is_rep and rng.random() < 0.45:
-            c["wa"]["replicate"] = rng.choice([2, 2, 3])
+            c["wa"]["replicate"] = rng.choice([2, 2, 3]) if rng.random() < 0.97 else rng.choice([10, 11])
             have_rep = True
             is_rep = True
         same_stage_preds = [p for p in preds if comps[p]["stage"] == stage]
@@ -76,6 +76,11 @@ def gen_template(rng, two_stage=False, size=None, stages=None):
                 is_rep_new = any(replicated[p] for p in preds)
                 if is_rep_new and not is_rep and not c["wa"].get("aggregate"):
                     is_rep = True
+        elif preds and not same_stage_preds and stage >= 1 and rng.random() < 0.2:
+            # a repeating consumer whose producers all live in EARLIER stages: no same-stage subject, the repeating
+            # exception of the launch rule never applies to it, and all its producers may have ended before it is
+            # staged in
+            c["wa"]["repeatInterval"] = 1
         _decorate(rng, c)
         replicated.append(is_rep)
         comps.append(c)
@@ -98,8 +103,12 @@ def gen_shaped(rng):
       chain     a producer with a shutdown list, a sibling, consumers spread over the following stages;
       observer  a repeating component with several same-stage subjects that become launchable in different
                 scheduler passes, optionally one more input from an earlier stage.
+      xobserver repeating consumers whose producers live in EARLIER stages only, and / or a repeating consumer of an
+                earlier-stage producer plus a same-stage subject WITHOUT inputs (promoted: it runs - and may end -
+                while the earlier stage is still current, so the observer can be staged in after all its producers
+                ended); optionally consumers of the observers.
     Failure-handling attributes are random as in gen_template."""
-    motif = rng.choice(["xagg", "xagg", "chain", "observer"])
+    motif = rng.choice(["xagg", "xagg", "chain", "observer", "xobserver", "xobserver"])
     comps = []
 
     def add(stage, refs, **wa):
@@ -137,6 +146,25 @@ def gen_shaped(rng):
         add(rng.choice([s1, s2]), [])
         if rng.random() < 0.4:
             add(s2 + 1, [rng.choice([sib, c1])])
+    elif motif == "xobserver":
+        a = add(0, [])
+        b = add(0, [a] if rng.random() < 0.5 else [])
+        st = rng.choice([1, 1, 2])
+        if st == 2:
+            add(1, [rng.choice([a, b])] if rng.random() < 0.6 else [])
+        kind = rng.choice(["earlier-only", "earlier-only", "promoted-subject", "promoted-subject", "both"])
+        obs = []
+        if kind in ("earlier-only", "both"):
+            refs = [rng.choice([a, b])] + ([a, b] if rng.random() < 0.3 else [])
+            obs.append(add(st, refs, repeatInterval=1))
+        if kind in ("promoted-subject", "both"):
+            subj = add(st, [])
+            refs = [subj, rng.choice([a, b])] if rng.random() < 0.8 else [subj]
+            obs.append(add(st, refs, repeatInterval=1))
+        if rng.random() < 0.4:
+            add(rng.choice([st, st + 1]), [rng.choice(obs)])
+        if rng.random() < 0.25:
+            add(st, [], repeatInterval=1)           # a repeating component without any producer
     else:
         a = add(0, [])
         st = rng.choice([0, 0, 1])
@@ -374,19 +402,34 @@ PERSONALITIES = {
 }
 
 
-def random_chooser(rng, personality, p_kill=0.0, max_ops=MAX_OPS, p_split=0.0):
+def random_chooser(rng, personality, p_kill=0.0, max_ops=MAX_OPS, p_split=0.0, p_complete=0.0):
     """p_split: probability that a chosen delivery of a finished-notification is executed in three separately
-    scheduled parts (["finA", c], later ["finB", c], later ["finC", c]: before / under / after comp_lock)"""
+    scheduled parts (["finA", c], later ["finB", c], later ["finC", c]: before / under / after comp_lock);
+    p_complete: probability per step that the external stage-completion hook of the current stage (rarely: of an
+    earlier stage, whose poll timer is still running) answers True - at most once per stage.
+    The chooser gives up (-> result "stopped") when nothing but scheduler passes has been possible for 8 consecutive
+    steps: no task can exit, nothing is queued, and the loop of run() still does not end."""
     w = PERSONALITIES[personality]
-    state = {"n": 0, "killed": False}
+    state = {"n": 0, "killed": False, "idle": 0}
 
     def choose(sim):
         state["n"] += 1
-        if state["n"] > max_ops:
+        if state["n"] > max(max_ops, 40 * len(sim.refs)):
             return None
+        if p_complete and rng.random() < p_complete:
+            ks = [k for k in range(sim.stage_no + 1) if sim.can_complete(k)]
+            if ks:
+                return ["complete", ks[-1] if rng.random() < 0.85 else rng.choice(ks)]
         cands = []
         weights = []
-        for op in sim.enabled():
+        en = sim.enabled()
+        if en:
+            state["idle"] = 0
+        else:
+            state["idle"] += 1
+            if state["idle"] > 8:
+                return None
+        for op in en:
             cands.append(op)
             weights.append(w.get(op[0], w["fin"]))
         cands.append(["sched"])
@@ -437,10 +480,48 @@ def final_state_changes(info, snaps):
     return out
 
 
-def run_real(template, scripts, chooser_factory, check_launch=True, cont=(), real=False):
+class _Verbose:
+    """ambient setting a user may change: logging enabled down to level 1 (records are created and dropped by a
+    NullHandler) instead of detsim's logging.disable(CRITICAL)"""
+
+    def __init__(self, on):
+        self.on = bool(on)
+
+    def __enter__(self):
+        if self.on:
+            import logging
+            root = logging.getLogger()
+            self.saved = (logging.root.manager.disable, root.level, list(root.handlers))
+            if not root.handlers:
+                root.addHandler(logging.NullHandler())
+            for h in root.handlers:
+                if isinstance(h, logging.StreamHandler) and not isinstance(h, logging.FileHandler):
+                    root.removeHandler(h)
+            if not root.handlers:
+                root.addHandler(logging.NullHandler())
+            root.setLevel(1)
+            logging.disable(logging.NOTSET)
+        return self
+
+    def __exit__(self, *a):
+        if self.on:
+            import logging
+            root = logging.getLogger()
+            logging.disable(self.saved[0])
+            root.setLevel(self.saved[1])
+            root.handlers[:] = self.saved[2]
+        return False
+
+
+def run_real(template, scripts, chooser_factory, check_launch=True, cont=(), real=False, verbose=False):
     """Builds the experiment, runs the stage loop (Controller.initialise / Controller.run() per stage) under
     `chooser`, returns a RunResult (info, scripts actually used, ops, snaps, result of the last run(), results per
     stage, final states, launch oracle failures ...)"""
+    with _Verbose(verbose):
+        return _run_real(template, scripts, chooser_factory, check_launch, cont, real)
+
+
+def _run_real(template, scripts, chooser_factory, check_launch=True, cont=(), real=False):
     tmp = tempfile.mkdtemp(prefix="c01-")
     cwd = os.getcwd()
     res = RunResult()
@@ -491,6 +572,9 @@ def run_real(template, scripts, chooser_factory, check_launch=True, cont=(), rea
         res.stop = bool(sim.controller.stop_executing)
         res.n_sched = sim.n_sched
         res.pool_errors = list(sim.pool_errors)
+        res.live = sim.live()
+        res.can_exit = sim.running()
+        res.told = [bool(getattr(sim.engine(r), "producersFinished", False)) for r in sim.refs]
         res.exit_log = {r: [list(x) for x in v] for r, v in sim.exit_log.items()}
         res.finish_log = list(sim.finish_log)
         res.first_final = [sim.first_final.get(r) for r in sim.refs]
@@ -542,6 +626,25 @@ def first_mismatch(model_snaps, real_snaps):
     if len(model_snaps) != len(real_snaps):
         return min(len(model_snaps), len(real_snaps))
     return None
+
+
+def hook_report(res):
+    """what the firings of the stage-completion hook did in this run: per firing the stage and the components of that
+    stage that were waiting (not staged in, not asked to finish, not final) when it fired; and, at the end of the run,
+    the components of the current stage that are not recorded in comp_done (`blockers`: what the loop of run() waits for)"""
+    comps = res.info["comps"]
+    fired = []
+    for k, (op, snap) in enumerate(zip(res.ops, res.snaps)):
+        if op[0] == "complete" and k > 0:
+            before = res.snaps[k - 1]["comps"]
+            fired.append({"stage": op[1], "at": k,
+                          "waiting": [i for i, c in enumerate(before)
+                                      if comps[i]["stage"] == op[1] and not c[2] and not c[4] and c[0] not in FINAL]})
+    last = res.snaps[-1] if res.snaps else {"comps": [], "stage": 0, "pending": []}
+    blockers = [i for i, c in enumerate(last["comps"]) if comps[i]["stage"] == last["stage"] and not c[1]]
+    return {"fired": fired, "blockers": blockers, "stage": last["stage"], "pending": last.get("pending", []),
+            "live": list(getattr(res, "live", [])),
+            "blocker_states": [[last["comps"][i][0], last["comps"][i][2]] for i in blockers]}
 
 
 def window_scheds(res):
